@@ -72,6 +72,10 @@ def cases(draw):
         else:
             ops.append(["compile", draw(st.integers(-1, 3))])
     ops.append(["compile", draw(st.integers(0, 2))])
+    # which engine object compiles: the one that stepped, a fresh one of the same symbol type, or one of the other type
+    for op in ops:
+        if op[0] == "compile":
+            op.append(draw(st.sampled_from(["same", "same", "fresh", "other"])))
     return {"spec": sp, "late": groups, "ops": ops, "sym": draw(st.sampled_from(["SX", "MX"])), "probe": draw(gen_nets.states(sp, finite_only=True))}
 
 
@@ -327,8 +331,11 @@ def check_case(case, ctx):
             if n_steps >= 2:
                 ctx.label("compile:after-2-steps")
                 ctx.nontrivial = True
+            who = op[2] if len(op) > 2 else "same"
+            ceng = eng if who == "same" else CasadiEngine(sym if who == "fresh" else ("MX" if sym == "SX" else "SX"))
+            ctx.label("compiled-by:" + who)
             try:
-                F = eng.to_function(net, compact=compact, more_out=False, **cur_pars)
+                F = ceng.to_function(net, compact=compact, more_out=False, **cur_pars)
                 exc = None
             except RuntimeError as e:
                 F, exc = None, e
